@@ -1303,3 +1303,28 @@ def _defaults_on_control(repo, ob, failure):
 
 
 GENERATORS.insert(0, ("C15.defaults.", _defaults_on_control))
+
+
+def _scope_var_growth(repo, ob, failure):
+    """attribute variables of <reuse> / <g> grown by substitution are bounded by var-limit (an error, not memory exhaustion);
+    a long value the author wrote as is stays accepted"""
+    long_attr = "a" * 3000
+    docs = [('self-reusing template doubling a <reuse> attribute', '<svg><specs><g id="a"><reuse href="#a" s="$s$s"/></g></specs><reuse href="#a" s="xx"/></svg>', "err"),
+            ('self-reusing template doubling a <g> attribute', '<svg><specs><g id="a" s="$s$s"><reuse href="#a"/></g></specs><var s="xx"/><reuse href="#a"/></svg>', "err"),
+            ('group template instantiating itself, attribute doubling', '<svg><var s="xx"/><specs><g id="a" s="$s$s"><reuse href="#a"/></g></specs><reuse href="#a"/></svg>', "err"),
+            ('two group templates instantiating each other, attribute doubling', '<svg><var s="xx"/><specs><g id="a" s="$s$s"><rect wh="1"/><reuse href="#b"/></g><g id="b" s="$s"><reuse href="#a"/></g></specs><reuse href="#a"/></svg>', "err"),
+            ('long literal attribute on a group', '<svg><g data-x="%s"><rect wh="2"/></g></svg>' % long_attr, "ok")]
+    for what, doc, want in docs:
+        r = run_svgdx(repo, doc, timeout=20)
+        if r["timeout"] or r["rc"] not in (0, 1, 2):
+            return {"input": doc[:200], "input_full": doc, "observed": "%s: process %s" % (what, "hangs" if r["timeout"] else "dies with status %s: %s" % (r["rc"], r["err"][-160:])),
+                    "expected": "an error (VarLimit / DepthLimit)"}
+        if want == "ok" and r["rc"] != 0:
+            return {"input": doc[:200], "input_full": doc, "observed": "%s: rejected: %s" % (what, r["err"][-160:]), "expected": "accepted: nothing was substituted"}
+        if want == "err" and r["rc"] == 0:
+            return {"input": doc, "observed": "%s: accepted" % what, "expected": "an error (VarLimit / DepthLimit)"}
+    return None
+
+
+GENERATORS.insert(0, ("C17.scope.", _scope_var_growth))
+GENERATORS.insert(0, ("C01.scope.", _scope_var_growth))
